@@ -1,11 +1,14 @@
 #!/bin/bash
-# selftest.sh <patch> <ID> [tier]  -- applies a seeded change to /repo, runs one check, reverts. Development aid, not a MANIFEST command.
+# selftest.sh <patch> <ID> [tier] -- applies a seeded change in a scratch worktree of /repo (never in /repo itself),
+# points the check at it through PI2_REPO, removes the worktree.  Development aid, not a MANIFEST command.
 P=$(realpath "$1"); ID=$2; T=${3:-quick}
-cd /repo || exit 9
-git diff --quiet || { echo "repo dirty"; exit 9; }
-git apply "$P" || { echo "patch does not apply"; exit 9; }
-cd /verif && ./check $ID $T > /tmp/selftest_$ID.log 2>&1; rc=$?
-git -C /repo checkout -- . 
-echo "selftest $(basename $P) on $ID: exit $rc ($(grep -c '^VIOLATION' /tmp/selftest_$ID.log) violations)"
-grep -m3 -A1 '^VIOLATION\|^HARNESS\|^INCONCL' /tmp/selftest_$ID.log | cut -c1-300
+W=$(mktemp -d /tmp/st-XXXXXX)
+rmdir $W
+git -C /repo worktree add -q --detach $W HEAD || exit 9
+(cd $W && git apply "$P") || { echo "patch does not apply"; git -C /repo worktree remove --force $W; exit 9; }
+cd /verif && PI2_REPO=$W ./check $ID $T > /tmp/selftest_${ID}_$$.log 2>&1; rc=$?
+git -C /repo worktree remove --force $W
+echo "selftest $(basename $(dirname $P))/$(basename $P) on $ID: exit $rc ($(grep -c '^VIOLATION' /tmp/selftest_${ID}_$$.log) violations)"
+grep -m3 -A1 '^VIOLATION\|^HARNESS\|^INCONCL' /tmp/selftest_${ID}_$$.log | cut -c1-300
+rm -f /tmp/selftest_${ID}_$$.log
 exit $rc
